@@ -173,3 +173,43 @@ func HarnessRelayTarget() {
 	vReach("forwarded")
 	vAssert(e.o.seen[0].uri == target, "c08.request.target-changed-on-the-way-to-the-origin")
 }
+
+// HarnessRelayVia: Via is an end-to-end, multi-valued field that the proxy itself adds to: all
+// Via lines of the origin reach the client in order, on both transports, relayed, freshly
+// stored and on a later hit; the proxy's own hop comes after them.
+func HarnessRelayVia() {
+	e := newEnv(symChoice(2), 1<<30)
+	vias := [][]string{nil, {"1.1 edge-a"}, {"1.1 edge-a", "1.0 edge-b"}, {"1.1 edge-a, 1.1 mid", "1.0 edge-b", "1.1 edge-c"}}
+	sent := vias[symChoice(len(vias))]
+	oh := hdr("Cache-Control", "max-age=60")
+	if symChoice(2) == 1 {
+		oh = hdr("Cache-Control", "no-store")
+	}
+	if sent != nil {
+		oh["Via"] = sent
+	}
+	e.o.script = []originResp{{status: 200, header: oh, body: []byte("ok")}}
+	vClockFreeze(true)
+	viaTunnel := symChoice(2) == 1
+	get := func() capture {
+		req := newReq("GET", "o.test", "/via", "", nil)
+		if viaTunnel {
+			return e.tunnelOne(req)
+		}
+		return e.plain(req)
+	}
+	check := func(c capture, where string) {
+		got := c.header["Via"]
+		vAssert(len(got) >= len(sent), "c08."+where+".end-to-end-header-values-changed")
+		for i := 0; i < len(sent) && i < len(got); i++ {
+			vAssert(got[i] == sent[i], "c08."+where+".end-to-end-header-values-changed")
+		}
+		vAssert(len(got) <= len(sent)+1, "c08."+where+".via-lines-invented")
+	}
+	c1 := get()
+	vAssert(c1.answered && c1.status == 200, "c08.status-not-relayed")
+	check(c1, "response.relayed")
+	c2 := get()
+	vReach("second")
+	check(c2, "response.hit")
+}
